@@ -89,6 +89,10 @@ def install_mutex_logging(rl):
 
     def logged(fn_reference_with_args):
         lk = orig(fn_reference_with_args)
+        if not (hasattr(lk, "acquire") and hasattr(lk, "release")):
+            # what the runner gets here is no lock object any more (refactored): no acquire / release events; the oracles remain
+            MUTEX_LOG["available"] = False
+            return lk
         key = (fn_reference_with_args.fn_reference.qualified_name, fn_reference_with_args.arg_hash)
         ent = _proxies.get(id(lk))
         if ent is None or ent[0] is not lk:
@@ -149,7 +153,10 @@ def make_functions(cluster):
            "@memento_function(cluster=%r)\ndef proc(x):\n    c09.REC.log(x + 300)\n    return None\n\n\n"
            "@memento_function(cluster=%r)\ndef add(a, b):\n    c09.REC.log(400 + a * 10 + b)\n    return a + b\n\n\n"
            "@memento_function(cluster=%r)\ndef ptab(x):\n    from twosigma.memento.partition import InMemoryPartition\n    c09.REC.log(500 + x)\n"
-           "    return InMemoryPartition({'n': x, 'rows': ['row-%%d-%%d' %% (x, i) for i in range(3)]})\n" % (cluster, cluster, cluster, cluster, cluster, cluster))
+           "    return InMemoryPartition({'n': x, 'rows': ['row-%%d-%%d' %% (x, i) for i in range(3)]})\n\n\n"
+           "@memento_function(cluster=%r)\ndef ptabo(x):\n    from twosigma.memento.partition import InMemoryPartition\n    from twosigma.memento.result import KeyOverrideResult\n"
+           "    c09.REC.log(600 + x)\n    return KeyOverrideResult(InMemoryPartition({'n': x, 'rows': ['pub-%%d-%%d' %% (x, i) for i in range(3)]}), 'published/today')\n"
+           % (cluster, cluster, cluster, cluster, cluster, cluster, cluster))
     fname = "<%s>" % modname
     linecache.cache[fname] = (len(src), None, src.splitlines(True), fname)
     mod = types.ModuleType(modname)
@@ -176,6 +183,10 @@ VARIANTS = [
     # (line-level yield points only inside the named functions, function entries elsewhere: few enough steps for every
     # single preemption point to be tried)
     dict(name="partition-results/cold/different-keys", warm=[], cache="none", line_names=["store", "encode", "memoize"], every_point=True),
+    # one of the two partitions is published under a key override (the strategy object that writes them is shared by all calls)
+    dict(name="partition-override-and-plain/cold/different-keys", warm=[], cache="none", line_names=["store", "encode", "memoize"], every_point=True),
+    # the cluster's storage comes from a configuration dictionary (memory backend); the two callers are its first users
+    dict(name="config-built-cluster/cold/same-key", warm=[], cache="none", config_cluster=True, every_point=True),
     dict(name="nested-callers-with-stale-version/cold", warm=[], cache="none", memento_lines=True,
          line_names=["_recompute_version", "_update_dependencies", "_validate_dependency", "dependencies", "hash_rules"], every_point=True),
 ]
@@ -189,7 +200,11 @@ def variant_trial(var, schedule, root):
     from twosigma.memento.storage_filesystem import FilesystemStorageBackend
     st = FilesystemStorageBackend(path=os.path.join(root, "s"), memory_cache_mb=(None if var["cache"] == "none" else 4))
     prev = m.Environment.get()
-    m.Environment.set(Environment(name="c09", base_dir=root, repos=[ConfigurationRepository(name="r", clusters={"c09": FunctionCluster(name="c09", storage=st)})]))
+    if var.get("config_cluster"):
+        cl_ = FunctionCluster(config={"name": "c09", "storage": {"type": "memory"}})
+    else:
+        cl_ = FunctionCluster(name="c09", storage=st)
+    m.Environment.set(Environment(name="c09", base_dir=root, repos=[ConfigurationRepository(name="r", clusters={"c09": cl_})]))
     try:
         work, other, outer = make_functions("c09")
         mod = _last_module[0]
@@ -214,6 +229,12 @@ def variant_trial(var, schedule, root):
             pshow = lambda p: [p.get("n"), p.get("rows")]
             thunks = [lambda: pshow(mod.ptab(1)), lambda: pshow(mod.ptab(2))]
             want, once = [[1, ["row-1-%d" % i for i in range(3)]], [2, ["row-2-%d" % i for i in range(3)]]], {501: 1, 502: 1}
+        elif kind == "partition-override-and-plain":
+            pshow = lambda p: [p.get("n"), p.get("rows")]
+            thunks = [lambda: pshow(mod.ptab(1)), lambda: pshow(mod.ptabo(2))]
+            want, once = [[1, ["row-1-%d" % i for i in range(3)]], [2, ["pub-2-%d" % i for i in range(3)]]], {501: 1, 602: 1}
+        elif kind == "config-built-cluster":
+            thunks, want, once = [lambda: work(5), lambda: work(5)], [val(5), val(5)], {5: 1}
         elif kind == "nested-callers-with-stale-version":
             ov = lambda x: [x, x * x, "v"]
             thunks, want, once = [lambda: outer(205), lambda: outer(205)], [ov(205), ov(205)], {205: 1, 5: 1}
@@ -238,6 +259,11 @@ def variant_trial(var, schedule, root):
         else:
             want_line = lambda c: c.co_filename in lines_in
             call_files = files
+        if var.get("config_cluster"):
+            import twosigma.memento.configuration as cfgmod
+            import twosigma.memento.storage as stmod
+            import twosigma.memento.storage_memory as smem
+            call_files = set(call_files) | {cfgmod.__file__, stmod.__file__, smem.__file__, rl_file}
         S = sched.Sched(want_line, block_timeout=0.08, want_call=lambda c: c.co_filename in call_files)
         results, steps, _ = S.run([wrap(i, f) for i, f in enumerate(thunks)], schedule)
         fails = []
@@ -248,6 +274,17 @@ def variant_trial(var, schedule, root):
         for x, n in once.items():
             if execs.get(x, 0) > n:
                 fails.append(dict(clause="single-flight", arg=x, executions=execs.get(x, 0), expected=n))
+        if kind == "partition-override-and-plain" and not fails:
+            # the two calls do not leak into each other: what the call without key override stored is content-addressed (C07's
+            # statement, looked at here because only an interleaving of two calls can break it)
+            try:
+                mm_ = mod.ptab.memento(1)
+                ck_ = None if mm_ is None else mm_.content_key.key
+                if ck_ is None or not ck_.startswith("c/"):
+                    fails.append(dict(clause="concurrent-calls-do-not-leak-into-each-other", call="ptab(1)", stored_under=ck_,
+                                      note="a result stored without key override lives under the other call's override key"))
+            except Exception as e:
+                fails.append(dict(clause="no-internal-error", when="reading the memento afterwards", error=repr(e)[:200]))
         # afterwards every call once more, one after the other: served, with the right value
         _tid.i = 99
         for i, (f, w) in enumerate(zip(thunks, want)):
